@@ -270,6 +270,10 @@ def run_scenario(ctx, calls, script_tag, events, overlap=None, send_fail=None, e
                         V(f"legal-call-forwarded-wrong|{call}", repr(new_fw))
                     else:
                         m = new_fw[0]
+                        if call == "close" and m.get("code", 1000) != 1000:
+                            V("close-without-a-code-sends-another-code", repr(m))
+                        if call == "accept" and m.get("subprotocol") is not None:
+                            V("accept-without-a-subprotocol-chooses-one", repr(m))
                         if call == "send_text" and m.get("text") != _text(idx):
                             V("send_text-payload", repr(m))
                         if call == "send_bytes" and m.get("bytes") != _text(idx).encode():
